@@ -282,8 +282,12 @@ def prompt_unit():
             run.path.interp = it
             missing = Opaque(fresh('missing', OBJ), 'input')
             run.path.missing = missing
+            nb = corevc.ZBag.havoc(OBJ, 'needed_by')
+            for f in nb.wf():
+                run.fact(f)
+            run.path.needed_by, run.path.needed_by0 = nb, nb.snap()
             try:
-                return it.call_function(fn, [missing, corevc.ZBag(OBJ, name='needed_by')])
+                return it.call_function(fn, [missing, nb])
             except corevc.LoopIterationDone:
                 run.path.iteration_only = True
                 return None
@@ -302,6 +306,11 @@ def prompt_unit():
             if getattr(p, 'iteration_only', False):
                 continue
             hyp = p.conds + p.facts
+            # frame: the list of waiting lines shown to the callback is the solver's own list - it is read, never changed
+            e = z3.Const('_e', OBJ)
+            nb, nb0 = p.needed_by, p.needed_by0
+            same = smt.prove(hyp, z3.And(nb.size == nb0.size, z3.ForAll([e], nb.cnt[e] == nb0.cnt[e])))[0] == 'discharged'
+            note('the-list-of-waiting-lines-is-left-as-received', same, 'needed_by is modified by the callback')
             if p.outcome[0] == 'return':
                 r = p.outcome[1]
                 if isinstance(r, tuple) and len(r) == 2 and r[1] is True:
@@ -321,8 +330,66 @@ def prompt_unit():
                 obs.append(Ob(id=oid, backend='symexec+z3', function=fid, clause=label.replace('-', ' '), vc=f'{n} path(s); input() raising {kname}', note='C20'))
             else:
                 obs.append(Ob(id=oid, status=oblig.REFUTED, backend='symexec+z3', function=fid, clause='NOT: ' + label, solver_output=detail, witness={'detail': detail},
-                              replay={'reproduced': False}, note='C20'))
+                              replay=native_prompt_frame() if 'left-as-received' in label else {'reproduced': False}, note='C20'))
     return obs
+
+
+def native_prompt_frame():
+    """Concretisation of the frame: the real prompt_input shown 1, 30 and 200 waiting lines, one typed answer."""
+    import builtins
+    import contextlib
+    import io
+    import habutax
+
+    class Fm(object):
+        def full_description(self):
+            return 'Form X'
+
+        def instance(self):
+            return None
+
+    class Fl(object):
+        def __init__(self, k):
+            self.k = k
+
+        def form(self):
+            return Fm()
+
+        def base_name(self):
+            return f'line{self.k}'
+
+        def name(self):
+            return f'x.line{self.k}'
+
+    class Missing(object):
+        def name(self):
+            return 'x.amount'
+
+        def help(self):
+            return 'An amount?'
+
+        def format_suggestion(self):
+            return ''
+
+        def valid(self, v):
+            return True
+    runs, bad = [], False
+    orig = builtins.input
+    builtins.input = lambda prompt='': '1'
+    try:
+        for n in (1, 30, 200):
+            lst = [Fl(k) for k in range(n)]
+            before = list(lst)
+            try:
+                with contextlib.redirect_stdout(io.StringIO()):
+                    r = habutax.prompt_input(Missing(), lst)
+                runs.append({'waiting_lines_shown': n, 'left_in_the_list': len(lst), 'returned': repr(r)[:40]})
+                bad = bad or lst != before
+            except BaseException as ex:
+                runs.append({'waiting_lines_shown': n, 'raised': type(ex).__name__})
+    finally:
+        builtins.input = orig
+    return {'reproduced': bad, 'kind': 'prompt-frame', 'runs': runs}
 
 
 def bounded_enumeration(tier):
